@@ -15,7 +15,7 @@
 
 """A collection of util functions to perform common or repeated actions."""
 
-import logging
+from deep import logging
 import time
 from threading import Event, Thread
 
